@@ -403,4 +403,51 @@ def r74l(F):
     return r
 
 
-RULES = [r71, r72, r73, r74, r86, r74l, r72s]
+
+def r73c(F):
+    r = RuleResult("R73c", "line and column come from the underlying iterator and two constants",
+                   "OffsetStrIter adds offsets fixed at construction to the line / column of the abortable_parser iterator it wraps. A "
+                   "field of its own that takes part in line() / column() and is written while the input is consumed is a second "
+                   "counter: unless it is set back at a line break, the column of everything after the first line carries what "
+                   "accumulated before (who-may-write on the wrapper's fields)", floor=2)
+    from ..access import field_accesses
+    ADT = "ucglib::iter::OffsetStrIter"
+    fields = []
+    for n, fn in F.fns.items():
+        if "OffsetStrIter" not in n or fn.derived:
+            continue
+        for b, j, pl, rv, m in fn.assigns():
+            if rv["k"] == "agg" and rv.get("adt") == ADT:
+                for f in rv.get("fields") or []:
+                    if f not in fields:
+                        fields.append(f)
+    need(fields, "OffsetStrIter is never constructed (struct not found)")
+    readers = ("::column", "::line")
+    for f in fields:
+        if f == "contained":
+            continue
+        acc = field_accesses(F, ADT, f)
+        writers = sorted({a[1] for a in acc if a[0] in ("assign", "mutref")})
+        in_pos = any(a[0] in ("read", "ref") and a[1].endswith(readers) for a in acc)
+        if not writers or not in_pos:
+            r.inst("OffsetStrIter.%s:constant" % f, "src/iter.rs", True,
+                   "fixed at construction" if not writers else "written in %s but not part of line() / column()" % [w.split("::")[-1] for w in writers],
+                   nontrivial=in_pos)
+            continue
+        # a counter of its own: is it set back to a constant under a comparison with a line break?
+        reset = False
+        for w in writers:
+            wf = F.fns[w]
+            cmp10 = [b for b, j, pl, rv, m in wf.assigns() if rv["k"] == "bin" and rv["op"] in ("Eq", "Ne") and any(o_.get("int") == "10" for o_ in rv["ops"])]
+            sw10 = [b for b in range(len(wf.blocks)) if wf.term(b)["k"] == "switch" and any(str(x["val"]) == "10" for x in wf.term(b)["targets"])]
+            for b, j, pl, rv, m in wf.assigns():
+                if any(isinstance(e, dict) and e.get("f") == f for e in pl["p"]) and rv["k"] == "use" and "int" in rv["ops"][0] and \
+                        any(cfg.dominates(wf, cb, b) for cb in cmp10 + sw10):
+                    reset = True
+        need(not reset, "OffsetStrIter.%s is a counter of its own with a reset at a line break: whether the reset is right is not decided here" % f)
+        r.inst("OffsetStrIter.%s:constant" % f, "src/iter.rs", False,
+               "`%s` takes part in line() / column() and is written in %s while the input is consumed, with no reset at a line break: "
+               "the column of a token after the first line depends on what came before that line" % (f, [w.split("::")[-1] for w in writers]))
+    return r
+
+RULES = [r71, r72, r73, r74, r86, r74l, r72s, r73c]
